@@ -20,7 +20,7 @@ EXPLANATION = (
     "components Sum_i cart(a_i) over the reduced axis; result shape (compared with NumPy's own reduction of a float array of that shape), Cartesian "
     "field names and flavor are compared structurally; empty arrays (no values involved) are run concretely: the sum is the zero vector"
 )
-BOUNDS = {"shapes": "(1,), (3,), (2,2), (2,3)", "outside": "count_nonzero (compares an object array outside any hook: needs a concrete bool), every ak.* reducer (C++)"}
+BOUNDS = {"shapes": "(1,), (3,), (2,2), (2,3)", "outside": "the value of count_nonzero (compares an object array outside any hook: needs a concrete bool; only 'the operand is not written before that comparison' is claimed), every ak.* reducer (C++)"}
 ASSUMPTIONS = c03.ASSUMPTIONS
 
 SHAPES = [(1,), (3,), (2, 2), (2, 3)]
@@ -76,6 +76,30 @@ def f_sum(system, momentum, shape, method):
     return fn
 
 
+def f_count_nonzero_frame(system, momentum, shape):
+    """count_nonzero compares an object array outside any hook (its value needs concrete truth values: outside the claim), but
+    everything it executes before that first comparison runs on symbolic scalars: the array operand must not have been written"""
+
+    def fn(R):
+        from symx import core
+
+        a, cols = c03.np_operand(R, system, "a", shape, momentum, offaxis=False)
+        goals = []
+        for label, call in (("numpy.count_nonzero", lambda: numpy.count_nonzero(a)), ("numpy.count_nonzero(axis=0)", lambda: numpy.count_nonzero(a, axis=0))):
+            snap = c03.np_snapshot(a)
+            try:
+                call()
+                reached = "returned"
+            except core.SymbolicBranch:
+                reached = "stopped at the first comparison of symbolic values"
+            except Exception as e:
+                reached = f"raised {type(e).__name__}"
+            goals.append((f"frame:array-unmodified by {label}", G.true(c03.np_snapshot(a) == snap, reached)))
+        return goals
+
+    return fn
+
+
 def f_empty():
     """empty lists sum to the zero vector: no values are involved, the concrete run is the whole space"""
 
@@ -116,5 +140,12 @@ def families(tier="quick"):
                             hard_s=400,
                         )
                     )
+    for d in (2, 3, 4):
+        for s in lanes.ALL_SYS[d]:
+            for mom in (False, True):
+                fams.append(
+                    Family(f"{PID}/count_nonzero-frame/{lanes.sysname(s)}/{'momentum' if mom else 'generic'}", f_count_nonzero_frame(s, mom, (2, 2)), defd=False,
+                           functions=[NP + "_reduce_count_nonzero", NP + "VectorNumpy.__array_function__", NP + "VectorNumpy.count_nonzero"], structural=True, frame=False)
+                )
     fams.append(Family(f"{PID}/empty", f_empty(), defd=False, functions=[NP + "_reduce_sum"], structural=True))
     return fams
